@@ -41,7 +41,7 @@ PROP = dict(
         rule=("value leg: case = (API, source type, target, block): a block is the complete value range (8-bit), 4096 consecutive values "
               "(16-bit, 16 blocks) or the boundary list plus 1000 (quick) / 4000 (thorough) PRNG values (32/64-bit, floating); every value "
               "is converted with and without destination.  text leg: case = (function [and length / type argument], base, block): every "
-              "boundary magnitude x sign rendered for the base, 75 malformed/limit texts (integer targets) or 230 floating texts, and 400 "
+              "boundary magnitude x sign rendered for the base, 72 malformed/limit texts (integer targets) or 176 floating texts, and 400 "
               "(quick) / 1500 (thorough) PRNG-decorated numerals, optionally with a range argument.  non-trivial = at least one accepted "
               "conversion whose target was compared with the oracle, or a refusal of a source the target cannot represent (value leg); at "
               "least one compared result and one refusal (text leg); distinct = hash of (API/function, types, base, block, values/texts)"),
